@@ -107,6 +107,8 @@ class C09(Engine):
                 st["mode"] = "write"
             stages.append(st)
         cmd = {"form": form, "stages": stages, "bg": form in ("bare", "![]") and rng.random() < 0.08, "redir_conflict": rng.random() < 0.05, "reps": rng.choice((1, 1, 1, 5, 5, 25))}
+        if form == "$[]" and stages[-1]["fm"] == "a_close":
+            stages[-1]["fm"] = "a_ok"  # closing the terminal handed to an uncaptured alias is the alias's own doing
         cap = {1: 10**9, 5: 5000, 25: 1000}[cmd["reps"]]
         for st in stages:  # keep repeated commands inside the step budget
             if st.get("n", 0) > cap:
@@ -425,8 +427,9 @@ class C09(Engine):
         new_fds = {n: t for n, t in snap["fds"].items() if n not in base["fds"]}
         if new_fds:
             viol("fds.same", f"after {s} (repetition {rep}) the shell holds additional open descriptors {new_fds}", nfds=len(new_fds), **sigbase)
-        if snap["threads"]:
-            viol("threads.none", f"after {s} helper threads are still running 10 simulated seconds later: {snap['threads']}", **sigbase)
+        new_threads = [t for t in snap["threads"] if t not in base["threads"]]
+        if new_threads:
+            viol("threads.none", f"after {s} helper threads are still running 10 simulated seconds later: {new_threads}", **sigbase)
         if snap["children_live"] and not cmd["bg"]:
             viol("children.reaped", f"after {s} foreground children are still running: {snap['children_live']}", state="running", **sigbase)
         if snap["zombies"] and not cmd["bg"]:
